@@ -433,6 +433,39 @@ fn foreign_digest_name(doc: &Value, r: &mut Rng) -> Option<Value> {
     Some(d)
 }
 
+/// the document with one artifact path (a key of `subject`, `materials` or `products`) spelled with a backslash
+/// in it - a character like any other in a file name here; sometimes next to the same path with a slash
+fn backslash_artifact(doc: &Value, r: &mut Rng) -> Option<Value> {
+    let mut d = doc.clone();
+    let mut tables: Vec<&mut serde_json::Map<String, Value>> = vec![];
+    fn collect<'a>(v: &'a mut Value, out: &mut Vec<&'a mut serde_json::Map<String, Value>>) {
+        if let Value::Object(m) = v {
+            for (k, x) in m.iter_mut() {
+                if (k == "subject" || k == "materials" || k == "products") && x.is_object() {
+                    if let Value::Object(t) = x {
+                        out.push(t);
+                    }
+                } else {
+                    collect(x, out);
+                }
+            }
+        }
+    }
+    collect(&mut d, &mut tables);
+    let n = tables.len();
+    if n == 0 {
+        return None;
+    }
+    let t = &mut tables[r.below(n)];
+    let digest = t.values().next().cloned().unwrap_or_else(|| serde_json::json!({"sha256": "ab".repeat(32)}));
+    let name = *r.pick(&["dist\\foo.tar.gz", "a\\b", "\\", "C:\\out\\x.bin", "trailing\\"]);
+    t.insert(name.to_string(), digest.clone());
+    if r.chance(1, 2) {
+        t.insert(name.replace('\\', "/"), digest);
+    }
+    Some(d)
+}
+
 pub fn run(cfg: &Cfg) {
     let mut sink = Sink::new(&cfg.out);
     let mut r = Rng::new(cfg.seed);
@@ -460,6 +493,17 @@ pub fn run(cfg: &Cfg) {
         }
         // ---- digests under algorithm names the crate does not compute itself (another implementation's link
         //      or statement): refused, or accepted and then written and read back like any other
+        // ---- artifact paths with a backslash in them
+        if i % 3 == 2 {
+            for base in [&naive, &v01] {
+                if let Some(d) = backslash_artifact(base, &mut r) {
+                    statement_case(&mut sink, &mut model, &d, None, "backslash-path");
+                }
+            }
+            if let Some(d) = backslash_artifact(&pred, &mut r) {
+                predicate_case(&mut sink, &mut model, &d, "predicate-backslash-path");
+            }
+        }
         if i % 3 == 1 {
             if let Some(d) = foreign_digest_name(&naive, &mut r) {
                 statement_case(&mut sink, &mut model, &d, None, "foreign-digest-name");
